@@ -1,5 +1,5 @@
-(* C06 at stream level: the record list Encode lays out, as a function of the File (so that side conditions
-   on the stream, e.g. no_time_quirk, are computable conditions on the File). *)
+(* C06 at stream level: the record list Encode lays out, as a function of the File (so that statements
+   about the stream, e.g. its well-formedness stream_wf, are statements about the File). *)
 From Coq Require Import NArith ZArith List Bool Lia String.
 From FitV Require Import Model.Values Model.Bytes Model.Base Model.Profile Model.Crc Model.Header
   Model.Components Model.Route Model.Encode Spec.CrcSpec Spec.FitSyntax Spec.Grammar Spec.RoundTrip Spec.EncLayout
